@@ -160,7 +160,18 @@ check('C02', 'exploration',
       'TLA+ document-convention model evaluated by TLC on every real exchange (trace validation, closed case family)',
       'DESIGN.md 4/C02')
 
-PENDING = ['C03', 'C04', 'C07', 'C16', 'C17']
+check('C16', 'exploration',
+      'SpynePolyCases.PolyCases: the tree Base <- Mid <- Leaf, Base <- Other in one namespace; declared type Base or Mid as argument / '
+      'return value (optional and customized-mandatory), as member of a holder, as item type of an array and of a repeated member holding '
+      'mixed subclasses; runtime class over the declared class and its descendants; polymorphic on / off. XML family x validator '
+      '{None, soft, lxml}: the request is written by the independent encoder (xsi:type + the subclass fields) and TLC (TraceXml over '
+      'SpyneXmlDoc with Runtime / Proj) checks ReqIsSpec, Delivered (same subclass, equal fields), RespIsSpec (ancestors first; marker '
+      'resolving through the namespace declarations in scope; declared fields only when polymorphism is off) and ClientDecodes (loopback '
+      'Spyne client). Dict family (ignore_wrappers=False) x validator {None, soft}: the same through TraceDict over SpyneDictDoc.',
+      'TLA+ document models with runtime-class resolution, evaluated by TLC on every real exchange (trace validation, closed case family)',
+      'DESIGN.md 4/C16')
+
+PENDING = ['C03', 'C04', 'C07', 'C17']
 
 def main():
     import importlib
